@@ -32,7 +32,7 @@ def bounds(tier):
         "grammar": desc,
         "levels": [0, 1] if tier == "quick" else [0, 1, 2],
         "conditions": 2 if tier == "quick" else 3,
-        "dtypes": ["float64"] + (["float32 (representative leaves + depth-1 of them)"] if tier == "quick" else ["float32 (all leaves, depth 1)"]),
+        "dtypes": ["float64"] + (["float32 (representative leaves + depth-1 of them)"] if tier == "quick" else ["float32 (all leaf configurations, one per (kind, option, child class) at depth 1)"]),
         "factories": "5 factories x invert T/F x cond None/2 x 2 layers",
         "exhaustive_within_bounds": True,
     }
@@ -48,7 +48,9 @@ def enumerate_cases(tier, seed):
     cases = []
     for s in specs:
         cases.append({"id": "f64|" + g.canon(s), "spec": s, "x64": True, "tier": tier, "seed": seed})
-    f32 = [s for s in specs if g.info(s).depth <= (1 if tier != "quick" else 0)]
+    f32 = [s for s in specs if g.info(s).depth == 0]
+    if tier != "quick":
+        f32 += g._one_per_kind([s for s in specs if g.info(s).depth == 1])
     if tier == "quick":
         f32 += [s for s in specs if g.info(s).depth == 1 and s["k"] == "Invert"]
     for s in f32:
